@@ -1578,3 +1578,123 @@ func ruleNoMemoryTipUnderUpdate(c *report.Ctx) {
 		}
 	}
 }
+
+// ruleFastForwardGate (C06): start-up may skip unfiltered blocks only when no wallet at all is ready.
+func ruleFastForwardGate(c *report.Ctx) {
+	p := c.P
+	c.Rule("fast-forward-gate", "the start-up fast-forward (SetSyncedTo without filtering the block) runs only when the set of ready wallets is empty: the gate variable is len(getReadyWallets()) > 0 (or a monotone OR over the wallets), never the verdict of the last wallet only", 2)
+	st := fn(c, pkgWallet, "NtfnsHandler", "Start")
+	grw := fn(c, pkgWallet, "NtfnsHandler", "getReadyWallets")
+	sst := fn(c, pkgTxmgr, "SyncStore", "SetSyncedTo")
+	upd := fn(c, pkgDB, "", "Update")
+	if st == nil || grw == nil || sst == nil || upd == nil {
+		return
+	}
+	// the skip-ahead transaction: an Update in Start whose closure calls SetSyncedTo directly
+	var skip ssa.Instruction
+	for _, u := range calls(st, upd) {
+		uc, isCall := u.(*ssa.Call)
+		if !isCall {
+			continue
+		}
+		if cl := closureArg(uc, 1); cl != nil && len(calls(cl, sst)) > 0 {
+			skip = u
+		}
+	}
+	if skip == nil {
+		c.OK(sk(st)+":no-fast-forward", "Start has no skip-ahead transaction", p.Pos(st.Pos()))
+		c.Count(1)
+		return
+	}
+	// gate: a false-valued load of a local bool cell
+	var cell ssa.Value
+	gated := an.AnyAtom(p.GuardsOf(skip), func(a an.Atom) bool {
+		if a.Op != token.ILLEGAL || a.Truth {
+			return false
+		}
+		if ld, ok := a.X.(*ssa.UnOp); ok && ld.Op == token.MUL {
+			if al, ok := ld.X.(*ssa.Alloc); ok {
+				cell = al
+				return true
+			}
+		}
+		// ResolveCell may have replaced the load by the stored value
+		return false
+	})
+	if !gated || cell == nil {
+		// single-store cells are resolved by the guard engine: accept a guard that is directly !(len(getReadyWallets)>0)
+		direct := an.AnyAtom(p.GuardsOf(skip), func(a an.Atom) bool {
+			d := p.Desc(a.X)
+			return strings.Contains(d, "getReadyWallets") && (a.Op == token.LEQ || a.Op == token.EQL)
+		})
+		if direct {
+			c.OK(sk(st)+":fast-forward-gate", "guarded by len(getReadyWallets()) == 0", posOf(c, skip))
+			c.Count(1)
+			return
+		}
+		c.Fail(sk(st)+":fast-forward-gate", "the skip-ahead transaction is not guarded by a 'no ready wallet' flag: blocks paying a ready wallet can be skipped after a restart", posOf(c, skip), an.AtomTexts(p.GuardsOf(skip))...)
+		return
+	}
+	c.OK(sk(st)+":fast-forward-gate", "guarded by !flag", posOf(c, skip))
+	// every store into the flag
+	n := 0
+	for _, f := range append([]*ssa.Function{st}, st.AnonFuncs...) {
+		an.Instrs(f, func(in ssa.Instruction) {
+			s, ok := in.(*ssa.Store)
+			if !ok {
+				return
+			}
+			addr := s.Addr
+			if fv, isFV := addr.(*ssa.FreeVar); isFV {
+				// captured cell: match by binding position
+				for i, b := range f.FreeVars {
+					if b == fv {
+						if mc := makeClosureOf(st, f); mc != nil && i < len(mc.Bindings) {
+							addr = mc.Bindings[i]
+						}
+					}
+				}
+			}
+			if addr != cell {
+				return
+			}
+			n++
+			key := siteKey(st, "flag-store", n)
+			v := s.Val
+			okv := false
+			why := ""
+			switch x := v.(type) {
+			case *ssa.Const:
+				okv, why = true, "constant"
+			case *ssa.BinOp:
+				if x.Op == token.GTR && strings.HasPrefix(p.Desc(x.X), "len(") && strings.Contains(p.Desc(x.X), "getReadyWallets") {
+					if k, isK := constInt(x.Y); isK && k == 0 {
+						okv, why = true, "len(getReadyWallets()) > 0"
+					}
+				}
+			case *ssa.Phi:
+				// flag = flag || cond  ⇒  phi(true | cond) with the true edge taken when the flag already holds
+				for _, e := range x.Edges {
+					if k, isK := e.(*ssa.Const); isK && k.Value != nil && k.Value.ExactString() == "true" {
+						okv, why = true, "monotone OR"
+					}
+				}
+			}
+			if okv {
+				c.OK(key, why, posOf(c, in))
+			} else {
+				c.Fail(key, "the 'a wallet is ready' flag is overwritten with "+p.Desc(v)+": it reflects one wallet (the last examined), so with a ready wallet and a later importing/removal-flagged one the restart fast-forwards over blocks that pay the ready wallet and their transactions are lost for good", posOf(c, in))
+			}
+		})
+	}
+}
+
+func makeClosureOf(parent, anon *ssa.Function) *ssa.MakeClosure {
+	var out *ssa.MakeClosure
+	an.Instrs(parent, func(in ssa.Instruction) {
+		if mc, ok := in.(*ssa.MakeClosure); ok && mc.Fn == ssa.Value(anon) {
+			out = mc
+		}
+	})
+	return out
+}
